@@ -50,6 +50,7 @@ SPEC = {
             "crash_restarts_from_sqlite": 140, "arbitrary_state_roundtrips": 550,
             "repeat_calls_while_broadcast_outstanding": 840, "other_account_migration_intact": 1000,
             "write_faults_injected_mid_transaction": 40, "event_mark_mined": 100,
+            "probe_idempotent_save_of_complete": 1,
         },
         "thorough": {
             "evaluations": 1570000, "distinct_nontrivial": 340000, "traces": 43000, "traces_real": 9500,
@@ -72,6 +73,7 @@ SPEC = {
             "crash_restarts_from_sqlite": 11000, "arbitrary_state_roundtrips": 21000,
             "repeat_calls_while_broadcast_outstanding": 63000, "other_account_migration_intact": 43000,
             "write_faults_injected_mid_transaction": 4200, "event_mark_mined": 8700,
+            "probe_idempotent_save_of_complete": 1,
         },
     },
     "manifest": {
